@@ -4,9 +4,10 @@ META = dict(
     engine="seq", level="model_checking",
     technique="explicit-state BFS over histories of clock moves (forward, retrograde) and timer operations, replay-from-history on fresh real "
               "timers under a substituted clock, canonical-state dedupe (time-translation invariant), reference model compared after every step",
-    text="Timer, MonoTimer (with and without retrograde compensation) and StoreTimer, each with initial duration 0 and 1, are driven by a fake clock "
-         "(ioflo.aid.timing.time replaced by an object whose time() returns a harness variable; StoreTimer reads a Stamper): every history up to "
-         "depth 5 (quick) / 9 (thorough) of clock +0.25, +1, -0.5, restart(), restart(start), restart(duration), repeat(), extend(), extend(+x), "
+    text="Timer, MonoTimer (with and without retrograde compensation) and StoreTimer (on a Stamper and on a real Store), each with initial duration 0 "
+         "and 1 and created at clock 1000.0, at clock 0.0 and (StoreTimer) on a not yet stamped store, are driven by a fake clock "
+         "(ioflo.aid.timing.time replaced by an object whose time() returns a harness variable; StoreTimer reads store.stamp): every history up to "
+         "depth 5 (quick) / 8 (thorough; MonoTimer one less) of clock +0.25, +1, -0.5, restart(), restart(start= relative and absolute 0.0 / 0.5), restart(duration), repeat(), extend(), extend(+x), "
          "extend(-x) and, for MonoTimer where reading has a side effect, reads of elapsed / remaining / expired.  After every step start, stop, duration "
          "(and latest) of the real timer must equal the model, elapsed == max(0, clock - start), remaining == max(0, stop - clock), expired == "
          "(clock >= stop); the MonoTimer model first shifts start and stop by a backward jump since the last look (or raises TimerRetroError) and then "
@@ -30,20 +31,33 @@ class FakeTimeModule:
 
 
 KINDS = [("Timer", "Timer(duration=%r)", False), ("MonoTimer", "MonoTimer(duration=%r, retro=False)", True),
-         ("MonoTimer(retro)", "MonoTimer(duration=%r, retro=True)", True), ("StoreTimer", "StoreTimer(st, duration=%r)", False)]
-CONFIGS = [(k, d) for k in range(len(KINDS)) for d in (1.0, 0.0)]
+         ("MonoTimer(retro)", "MonoTimer(duration=%r, retro=True)", True), ("StoreTimer", "StoreTimer(st, duration=%r)", False),
+         ("StoreTimer(Store)", "StoreTimer(st, duration=%r)", False)]
+# (kind, clock reading at creation, initial duration).  Base 0.0 = the very beginning of a run (start/stop can be exactly 0.0);
+# base None = a store that has not been stamped yet (StoreTimer then starts at 0.0).
+CONFIGS = ([(k, b, d) for k in range(4) for b in (1000.0, 0.0) for d in (1.0, 0.0)]
+           + [(3, None, d) for d in (1.0, 0.0)]
+           + [(4, b, d) for b in (0.0, None) for d in (1.0, 0.0)])
 
 
-def init_text(kind, dur):
+def is_store(kind):
+    return KINDS[kind][0].startswith("StoreTimer")
+
+
+def init_text(kind, base, dur):
     name, ctor, _ = KINDS[kind]
     if name == "StoreTimer":
-        return "st = Stamper(1000.0); t = " + ctor % dur
-    return "clk.now = 1000.0; t = " + ctor % dur
+        if base is None:
+            return "st = Stamper(); st.stamp = None; t = " + ctor % dur
+        return "st = Stamper(%r); t = " % base + ctor % dur
+    if name == "StoreTimer(Store)":
+        return "Store.Clear(); st = Store(stamp=%r); t = " % base + ctor % dur
+    return "clk.now = %r; t = " % base + ctor % dur
 
 
 def clock_text(kind, delta):
-    if KINDS[kind][0] == "StoreTimer":
-        return "st.advance(%r)" % delta
+    if is_store(kind):
+        return "st.changeStamp((st.stamp or 0.0) + %r)" % delta
     return "clk.now += %r" % delta
 
 
@@ -67,7 +81,7 @@ def apply_model(kind, st, op):
     """-> list of alternatives (state, outcome) ; outcome = 'ok' | 'TimerRetroError' | ('value', v)"""
     name = op[0]
     if name == "clock":
-        return [(st[:4] + (st[4] + op[1],), "ok")]
+        return [(st[:4] + ((st[4] or 0.0) + op[1],), "ok")]
     out = []
     for s, raised in look(kind, st):
         if raised:
@@ -85,6 +99,8 @@ def apply_model(kind, st, op):
         elif name == "restart_start":
             b = abs(clock + op[1])
             out.append(((b, b + dur, dur, latest, clock), "ok"))
+        elif name == "restart_abs":
+            out.append(((abs(op[1]), abs(op[1]) + dur, dur, latest, clock), "ok"))
         elif name == "restart_duration":
             out.append(((clock, clock + op[1], op[1], latest, clock), "ok"))
         elif name == "repeat":
@@ -106,8 +122,10 @@ def op_text(kind, op):
     if name == "restart":
         return "t.restart()"
     if name == "restart_start":
-        return "t.restart(start=%s %s %r)" % ("st.stamp" if KINDS[kind][0] == "StoreTimer" else "clk.now",
+        return "t.restart(start=%s %s %r)" % ("st.stamp" if is_store(kind) else "clk.now",
                                                "-" if op[1] < 0 else "+", abs(op[1]))
+    if name == "restart_abs":
+        return "t.restart(start=%r)" % op[1]
     if name == "restart_duration":
         return "t.restart(duration=%r)" % op[1]
     if name == "repeat":
@@ -118,28 +136,41 @@ def op_text(kind, op):
 
 def ops_for(kind):
     ops = [("clock", 0.25), ("clock", 1.0), ("clock", -0.5)]
+    if is_store(kind):
+        ops.append(("clock", 0.0))          # first stamping of an unstamped store at 0.0
     if KINDS[kind][2]:
         ops += [("elapsed",), ("remaining",), ("expired",)]
-    ops += [("restart",), ("restart_start", -0.5), ("restart_start", 0.25), ("restart_duration", 0.5), ("repeat",),
-            ("extend", None), ("extend", 0.5), ("extend", -0.25)]
+    ops += [("restart",), ("restart_start", -0.5), ("restart_start", 0.25), ("restart_abs", 0.0), ("restart_abs", 0.5),
+            ("restart_duration", 0.5), ("repeat",), ("extend", None), ("extend", 0.5), ("extend", -0.25)]
     return ops
 
 
 def enabled(st, op):
+    clock = st[4]
     if op[0] == "extend" and op[1] is not None and op[1] < 0:
         return st[2] + op[1] >= 0           # a shrink below zero has no stated meaning
+    if op[0] == "clock":
+        if op[1] == 0.0:
+            return clock is None            # only as the first stamp
+        if op[1] < 0:
+            if clock is None or clock + op[1] < 0:
+                return False                # clock readings stay non-negative
+            if st[3] is not None and clock + op[1] < st[3] and st[0] + (clock + op[1] - st[3]) < 0:
+                return False                # would shift a compensated start below zero: times are non-negative in ioflo
+    if clock is None and op[0] in ("restart", "restart_start", "restart_duration"):
+        return False                        # 'restart at the current time' has no meaning before the store is stamped
     return True
 
 
 # ------------------------------------------------------------------ real side
 
 class Real:
-    def __init__(self, timing, kind, dur):
+    def __init__(self, timing, storing, kind, base, dur):
         self.kind = kind
         self.clk = timing.time               # the installed FakeTimeModule
         self.ns = dict(clk=self.clk, Timer=timing.Timer, MonoTimer=timing.MonoTimer, StoreTimer=timing.StoreTimer,
-                       Stamper=timing.Stamper)
-        exec(init_text(kind, dur), self.ns)
+                       Stamper=timing.Stamper, Store=storing.Store)
+        exec(init_text(kind, base, dur), self.ns)
         self.t = self.ns["t"]
 
     def clock(self):
@@ -157,27 +188,33 @@ class Real:
 
 
 def canon(st):
+    """relative to the clock (the timer code is translation invariant) plus the facts that are not: a start or stop of
+    exactly 0.0 and an unstamped clock"""
     start, stop, dur, latest, clock = st
-    return (start - clock, stop - clock, dur, None if latest is None else latest - clock)
+    if clock is None:
+        return ("unstamped", start, stop, dur)
+    return (start - clock, stop - clock, dur, None if latest is None else latest - clock, start == 0.0, stop == 0.0, clock == 0.0)
 
 
 def explore(arg):
     cfg, depth = arg
-    kind, dur = CONFIGS[cfg]
+    kind, base, dur = CONFIGS[cfg]
     core.use_repo()
     from ioflo.aid import timing
+    from ioflo.base import storing
     if not isinstance(timing.time, FakeTimeModule):
         timing.time = FakeTimeModule()        # the clock seam: module attribute `time` of ioflo.aid.timing
+        storing.time = timing.time            # a real Store reads time.time() for its .realtime share: same fake
     name = KINDS[kind][0]
     part = core.Part()
     ops = ops_for(kind)
-    init = init_text(kind, dur)
+    init = init_text(kind, base, dur)
 
     def texts(hist):
         return [op_text(kind, o) for o in hist]
 
     def replay(hist):
-        r = Real(timing, kind, dur)
+        r = Real(timing, storing, kind, base, dur)
         for o in hist:
             r.run(op_text(kind, o))
         return r
@@ -191,7 +228,11 @@ def explore(arg):
     def pure_reads(r, st, hist):
         """Timer / StoreTimer: the three properties are pure functions of the state"""
         start, stop, d, latest, clock = st
-        for prop, exp in (("elapsed", max(0.0, clock - start)), ("remaining", max(0.0, stop - clock)), ("expired", clock >= stop)):
+        if clock is None:      # unstamped store: no clock to be elapsed against; only 'not expired' is defined
+            props = (("expired", False),)
+        else:
+            props = (("elapsed", max(0.0, clock - start)), ("remaining", max(0.0, stop - clock)), ("expired", clock >= stop))
+        for prop, exp in props:
             got = r.run("t." + prop)
             part.evaluations += 1
             if got != ("value", exp) or type(got[1]) is not type(exp):
@@ -202,7 +243,7 @@ def explore(arg):
 
     r0 = replay(())
     st0 = r0.state()
-    exp0 = (1000.0, 1000.0 + dur, dur, 1000.0 if KINDS[kind][2] else None, 1000.0)
+    exp0 = (base or 0.0, (base or 0.0) + dur, dur, base if KINDS[kind][2] else None, base)
     part.traces += 1
     if st0 != exp0:
         complain("constructor|wrong initial state", (), "fresh timer is %r, model: %r" % (st0, exp0), dict(got=st0, expected=exp0))
@@ -265,25 +306,32 @@ def explore(arg):
                 if len(seen) % 499 == 7:
                     part.sample(dict(timer=init, history=texts(h2), state=chosen))
     part.states = len(seen)
-    part.extra["%s duration %r" % (name, dur)] = dict(states=len(seen), depth_bound=depth, depth_reached=reached, operations=len(ops))
+    part.extra["%s created at %r duration %r" % (name, base, dur)] = dict(states=len(seen), depth_bound=depth, depth_reached=reached, operations=len(ops))
     return part
 
 
 def run():
     ck = core.Check("C42", "model_checking", META["technique"])
-    depth = 5 if core.TIER == "quick" else 9
-    ck.merge(core.pmap(explore, [(i, depth) for i in range(len(CONFIGS))]))
+    depth = 5 if core.TIER == "quick" else 8
+    # MonoTimer has 3 more operations (its reads); one level less keeps its shards the size of the others
+    ck.merge(core.pmap(explore, [(i, depth - 1 if KINDS[c[0]][2] else depth) for i, c in enumerate(CONFIGS)], procs=min(core.NPROC, 8)))
     ck.assumptions = [
-        "clock seam: ioflo.aid.timing.time (module attribute) replaced by an object with time(); StoreTimer reads a timing.Stamper; the real clock is never used",
-        "all clock values, starts and durations are multiples of 0.25 near 1000, so every float operation is exact and == is the right comparison",
+        "clock seam: ioflo.aid.timing.time (module attribute) replaced by an object with time(); StoreTimer reads a timing.Stamper or a real Store "
+        "(whose own time.time() use is redirected to the same fake); the real clock is never used",
+        "timers are created at clock 1000.0, at clock 0.0 (start/stop can be exactly 0.0) and, for StoreTimer, on an unstamped store (stamp None: the "
+        "timer starts at 0.0, only 'not expired' and the stamp-independent operations extend / repeat / restart(start=x) are defined until the first stamp)",
+        "times stay non-negative (restart documents 'must be non negative' and takes abs): a backward move that would shift a MonoTimer's start below 0 is not explored",
+        "all clock values, starts and durations are multiples of 0.25 and clock readings stay >= 0, so every float operation is exact and == is the right comparison",
         "MonoTimer: a backward jump is one relative to the last time the timer looked at the clock (that is all it can detect); the model looks first, "
         "then applies the operation to the shifted start/stop",
         "after TimerRetroError the timer may keep or advance its 'latest' mark; extend(-x) only while duration stays >= 0; return values not compared",
-        "dedupe is on values relative to the clock: timer code is translation invariant (restart(start=) is given relative to the clock)",
+        "dedupe is on values relative to the clock (timer code is translation invariant) plus the flags start == 0.0, stop == 0.0, clock == 0.0 / None",
     ]
     return ck.finish(
-        rule="BFS over all histories of length <= %d of 3 clock moves and 8 timer operations (+3 reads for MonoTimer) for 4 timer kinds x 2 initial "
-             "durations, deduped on (start-clock, stop-clock, duration, latest-clock); non-trivial = distinct reachable relative state" % depth,
+        rule="BFS over all histories of length <= %d (MonoTimer: one less) of 3-4 clock moves and 10 timer operations (restart(), restart(start=clock-0.5 / clock+0.25 / 0.0 / 0.5), "
+             "restart(duration), repeat(), extend(), extend(0.5), extend(-0.25); +3 reads for MonoTimer) for %d configurations (Timer, MonoTimer x2, "
+             "StoreTimer on Stamper and on a real Store; created at clock 1000.0 / 0.0 / unstamped; initial duration 1 / 0), deduped on "
+             "(start-clock, stop-clock, duration, latest-clock, zero flags); non-trivial = distinct reachable state" % (depth, len(CONFIGS)),
         exhaustive=True)
 
 
